@@ -96,3 +96,9 @@ claim("C05",
       "Static binding rules: a signing request is looked up under the address of the requested key and signs the caller's digest with the manager that owns the address; the private key cached for an address is Child(own index) of the branch key selected by its own branch (external test → Child(ExternalBranch) key, else Child(InternalBranch)); recorded derivation paths equal the Child() arguments; Sign only behind unlocked and a non-nil key of addrs[addr]; unknown keys fail first; the keeper signs with the key of the space named by the id.",
       "Trusted: go/ssa, hdkeychain.Child semantics. NOT decided: curve arithmetic, agreement of public-side and private-side derivation.",
       "DESIGN.md §4 C05")
+
+claim("C03",
+      "edge-cut dominance of credential checks + who-may-write on credential/flags + eraser cover rule + derived-key lifetime (pairing) rule",
+      "Static necessary conditions of 'private keys usable only with the current passphrase; Lock wipes them', on every CFG path: unlock, export, delete, private/public passphrase change and import store their effects only behind the success edge of a check of the caller's passphrase against the stored credential (salted hash or scrypt digest); a keystore is created/imported only under the passphrase that an existing keystore accepts (same variable as the one it is stored under); the stored credential and the unlocked flags are written only by unlock/change/load/erase; clearPrivKeys zeroes every private-hierarchy field that any function fills (and drops the pointers other code tests for nil) and Lock applies it to every keystore; every scrypt key derived from the private passphrase is zeroed or consumed by unlocking on all paths to the operation's return (found D4, fixed); passphrase change covers all keystores in one transaction; Unlock marks the manager unlocked only if no keystore failed; a keystore added to an unlocked manager is unlocked with it.",
+      "Trusted: go/ssa, snacl.SecretKey.DeriveKey verifies the digest, private-hierarchy fields identified by struct field name. NOT decided: behaviour after a restart as a value fact, effectiveness of zeroing at machine level (GC copies), partial unlock when a later keystore fails for a non-passphrase reason, timing side channels.",
+      "DESIGN.md §4 C03")
